@@ -153,7 +153,7 @@ static void codec_boundary_cases(const char* dir, uint64_t seed, int count) { ch
       for (int a = 0; a < 6; a++) for (int b2 = 0; b2 < 3; b2++) for (int cd = 0; cd < 2; cd++) { int64_t r = CR[a], L = CL[b2], tl = 13; int64_t n = r + L + tl; uint8_t* b = (uint8_t*)malloc((size_t)n + 1); vrng_bytes(&R, b, (size_t)r); for (int64_t i = r; i < r + L; i++) b[i] = b[i - r]; vrng_bytes(&R, b + r + L, (size_t)tl);
           table_t* t = bytes_table(cd ? CARQUET_COMPRESSION_LZ4 : CARQUET_COMPRESSION_SNAPPY, b, n); snprintf(tag, sizeof tag, "codec-boundary seed=%llu codec=%d literal=%lld match_len=%lld (fixed set)", (unsigned long long)seed, t->codec, (long long)r, (long long)L); run_case(t, dir, 250000 + a * 6 + b2 * 2 + cd, tag); v_count("codec_boundary_pages"); tbl_free(t); free(b); } }
     { /* pages that are one single literal of a critical length (incompressible bytes): the literal-length forms change at 60/61, 256/257, 65536/65537 and 2^24/2^24+1 bytes */
-      static const int64_t WL[] = {59, 60, 61, 62, 255, 256, 257, 258, 65535, 65536, 65537, 65538, 16777216, 16777217}; int nwl = count >= 600 ? 14 : 12;
+      static const int64_t WL[] = {59, 60, 61, 62, 255, 256, 257, 258, 65535, 65536, 65537, 65538, 16777216, 16777217}; int nwl = (count >= 600 && seed % 1000 == 0) ? 14 : 12;   /* the two 16 MiB literals once per run (first shard), not in every shard */
       for (int a = 0; a < nwl; a++) for (int cd = 0; cd < 2; cd++) { int64_t n = WL[a]; uint8_t* b = (uint8_t*)malloc((size_t)n + 1); vrng_bytes(&R, b, (size_t)n); table_t* t = bytes_table(cd ? CARQUET_COMPRESSION_LZ4 : CARQUET_COMPRESSION_SNAPPY, b, n); t->page_size = 1 << 26;
           snprintf(tag, sizeof tag, "codec-boundary seed=%llu codec=%d whole page one literal of %lld bytes", (unsigned long long)seed, t->codec, (long long)n); run_case(t, dir, 260000 + a * 2 + cd, tag); v_count("codec_boundary_pages"); v_count("pages_of_one_critical_length_literal"); tbl_free(t); free(b); } }
     for (int q = 0; q < count; q++) { int codec = T_CODECS[1 + q % 4]; int64_t r = vrng_chance(&R, 2, 3) ? RS[vrng_below(&R, sizeof RS / sizeof *RS)] : 1 + (int64_t)vrng_below(&R, 3000); int64_t L = vrng_chance(&R, 2, 3) ? LS[vrng_below(&R, sizeof LS / sizeof *LS)] : 4 + (int64_t)vrng_below(&R, 400); int64_t tl = TS[vrng_below(&R, sizeof TS / sizeof *TS)];
